@@ -76,7 +76,7 @@ def main():
                       kind_free_text="Kani 0.68 contract harnesses over the real crates (path dependencies on /repo)")],
         checks=checks,
         not_applicable=na,
-        notes="exit 0 = all obligations discharged; exit 1 = VIOLATION line; exit 2 = tool limit/undecided (never an alarm)",
+        notes="exit 0 = all obligations discharged; exit 1 = VIOLATION line; exit 2 = tool limit/undecided (never an alarm); a Kani harness timeout is printed as UNDECIDED (not explored) and does not change the exit code",
     )
     json.dump(m, open(os.path.join(here, "MANIFEST.json"), "w"), indent=1)
     print("claimed:", [c["property_id"] for c in checks])
